@@ -39,9 +39,11 @@ def gen_shapes(rng, n):
         if n == 1 and rng.random() < 0.3:
             shapes[0] = "Z%d" % rng.randrange(N_ZERO_TYPES)
         return shapes
-    prof = rng.choice(["plain", "zero", "zero", "pair", "pair", "mixed", "mixed", "allzero"])
+    prof = rng.choice(["plain", "zero", "zero", "pair", "pair", "mixed", "mixed", "allzero", "nonstruct"])
     if prof == "plain":
         return shapes
+    if prof == "nonstruct":
+        return ["N%d" % rng.randrange(3) if rng.random() < 0.6 else "P" for _ in range(n)]
     slots = list(range(n))
     rng.shuffle(slots)
     nz = npair = 0
@@ -62,6 +64,10 @@ def gen_shapes(rng, n):
             break
         o, i = slots.pop(), slots.pop()
         shapes[o], shapes[i] = "O:%d" % i, "I"
+    # closers whose type is not a struct at all (named int / slice / channel)
+    for s in slots:
+        if rng.random() < 0.25:
+            shapes[s] = "N%d" % rng.randrange(3)
     return shapes
 
 
@@ -254,7 +260,7 @@ def run(ctx):
         c = by_id[i]["case"]
         shapes = c.get("shapes") or ["P"] * c["n"]
         for sh in shapes:
-            shp[sh[0]] += 1
+            shp[sh[0]] = shp.get(sh[0], 0) + 1
         groups = shared_address_groups(shapes)
         nz = sum(1 for sh in shapes if sh.startswith("Z"))
         npair = sum(1 for sh in shapes if sh.startswith("O:"))
